@@ -36,3 +36,18 @@ ENTRIES = [
       "            self._write_cdx_field(\n                record, after_offset - before_offset, before_offset\n            )"),
 ]
 ENTRIES[14]['all'] = True
+
+NV = 'wpull/namevalue.py'
+ENTRIES += [
+    B('cdx-not-truncated', "            wpull.util.truncate_file(self._cdx_filename)\n            self._write_cdx_header()\n", "            self._write_cdx_header()\n", 'C07-D5'),
+    B('cdx-truncate-only-when-appending', "        if not self._params.appending:\n            wpull.util.truncate_file(self._cdx_filename)", "        if self._params.appending:\n            wpull.util.truncate_file(self._cdx_filename)", 'C07-D5'),
+    B('cdx-fresh-without-header', "            wpull.util.truncate_file(self._cdx_filename)\n            self._write_cdx_header()\n", "            wpull.util.truncate_file(self._cdx_filename)\n", 'C07-D5'),
+    B('status-line-cut-at-crlf', "match.group(1).partition(b'\\n')", "match.group(1).partition(b'\\r\\n')", 'C07-D6', F),
+    B('unfold-space-only', "        if line and line[0:1] in (' ', '\\t'):", "        if line.startswith(' '):", 'C07-D6', NV),
+    B('unfold-empty-line-continues', "        if line and line[0:1] in (' ', '\\t'):", "        if line[0:1] in ' \\t':", 'C07-D6', NV),
+    N('unfold-startswith-tuple', "        if line and line[0:1] in (' ', '\\t'):", "        if line.startswith((' ', '\\t')):", NV),
+    N('unfold-first-char', "        if line and line[0:1] in (' ', '\\t'):", "        if line and line[0] in '\\t ':", NV),
+    N('cdx-start-restructured', "        if not self._params.appending:\n            wpull.util.truncate_file(self._cdx_filename)\n            self._write_cdx_header()\n        elif not os.path.exists(self._cdx_filename):\n            self._write_cdx_header()\n",
+      "        if self._params.appending:\n            if not os.path.exists(self._cdx_filename):\n                self._write_cdx_header()\n        else:\n            wpull.util.truncate_file(self._cdx_filename)\n            self._write_cdx_header()\n"),
+    N('status-line-split', "status_line, dummy, field_str = match.group(1).partition(b'\\n')", "status_line, field_str = match.group(1).split(b'\\n', 1)", F),
+]
